@@ -14,28 +14,14 @@ theorem copyLines_trim (o : Opts) (k : Nat) (ht : o.trim = true) : ∀ ls : List
   | [] => rfl
   | l :: ls => by simp [copyLines, ht, copyLines_trim o k ht ls]
 
-/-- lines shorter than the scanner's limit, none with more commas than the header: every line is copied, padded -/
-theorem copyLines_short (o : Opts) (k : Nat) (ht : o.trim = false) : ∀ ls : List Txt,
-    (∀ x ∈ ls, x.length < scanLimit ∧ commasOutside false x ≤ k) → copyLines o k ls = some (ls.map (padLine k))
+/-- no line with more commas than the header: every line is copied, padded — whatever its length -/
+theorem copyLines_pad (o : Opts) (k : Nat) (ht : o.trim = false) : ∀ ls : List Txt,
+    (∀ x ∈ ls, commasOutside false x ≤ k) → copyLines o k ls = some (ls.map (padLine k))
   | [], _ => rfl
   | l :: ls, h => by
-    obtain ⟨h1, h2⟩ := h l (List.mem_cons_self ..)
-    have ih := copyLines_short o k ht ls (fun x hx => h x (List.mem_cons_of_mem _ hx))
-    have n1 : ¬ (l.length ≥ scanLimit) := by omega
+    have h2 := h l (List.mem_cons_self ..)
+    have ih := copyLines_pad o k ht ls (fun x hx => h x (List.mem_cons_of_mem _ hx))
     have n2 : ¬ (commasOutside false l > k) := by omega
-    simp [copyLines, ht, n1, n2, ih, padLine]
-
-/-- **the defect (KF-C19-7)**: at the first line of `scanLimit` bytes or more the copy stops — that line and every
-line after it are missing, and nothing is reported -/
-theorem copyLines_long (o : Opts) (k : Nat) (ht : o.trim = false) (l : Txt) (post : List Txt) (hl : l.length ≥ scanLimit) :
-    ∀ pre : List Txt, (∀ x ∈ pre, x.length < scanLimit ∧ commasOutside false x ≤ k) →
-      copyLines o k (pre ++ l :: post) = some (pre.map (padLine k))
-  | [], _ => by simp [copyLines, ht, hl]
-  | p :: pre, h => by
-    obtain ⟨h1, h2⟩ := h p (List.mem_cons_self ..)
-    have ih := copyLines_long o k ht l post hl pre (fun x hx => h x (List.mem_cons_of_mem _ hx))
-    have n1 : ¬ (p.length ≥ scanLimit) := by omega
-    have n2 : ¬ (commasOutside false p > k) := by omega
-    simp [copyLines, ht, n1, n2, ih, padLine]
+    simp [copyLines, ht, n2, ih, padLine]
 
 end Fit.Csv
